@@ -972,12 +972,14 @@ func (b *Builder) PatchConfig() ([]byte, error) {
 				DemonConfig.AddWString("Content-type: */*")
 			}
 		} else {
+			// work on a copy: the listener keeps using its own header list
+			var Headers = append([]string{}, Config.Config.Headers...)
 			if len(Config.Config.HostHeader) > 0 {
-				Config.Config.Headers = append(Config.Config.Headers, "Host: "+Config.Config.HostHeader)
+				Headers = append(Headers, "Host: "+Config.Config.HostHeader)
 			}
 
-			DemonConfig.AddInt(len(Config.Config.Headers))
-			for _, headers := range Config.Config.Headers {
+			DemonConfig.AddInt(len(Headers))
+			for _, headers := range Headers {
 				logger.Debug(headers)
 				DemonConfig.AddWString(headers)
 			}
